@@ -49,7 +49,7 @@ impl Prop for C11Prop {
             cfg.tab_width = *t.pick(&[2, 4, 2, 3, 1]);
             cfg.continuation_indents = *t.pick(&[2, 1, 2]);
         }
-        let policy = if simple { Some(crate::gen::layout::CommentPolicy::OwnLine) } else { None };
+        let policy = if simple { Some(crate::gen::layout::CommentPolicy::LineEdges) } else { None };
         let tight = stream.ends_with("tight");
         let w = wf::build(t, if tight { 60 } else { wf::fuel_for(stream.trim_start_matches("simple")).min(90) }, opts, policy, None)?;
         if !w.input.is_ascii() {
